@@ -20,7 +20,7 @@ def family_traces(fams):
         if f["exc"]:
             continue
         for i, (b, c) in enumerate(zip(f["bases"], f["circuits"])):
-            traces.append({"kind": "mub", "n": f["n"], "conn": f["conn"], "basis": b, "gates": c, "cost": -1})
+            traces.append({"kind": "mub", "n": f["n"], "conn": f["conn"], "basis": b, "gates": c, "cost": -1, "pass": f.get("pass", 1)})
             meta.append((f["n"], f["conn"], i))
     return traces, meta
 
@@ -29,6 +29,8 @@ def run(tier):
     ck = core.Check("C09", tier)
     L = impl.lib()
     fams = par.pmap(workers.mub_family, impl.SUPPORTED)
+    # every configuration is asked twice in one process, the caller scribbling over everything it was given in between: the second answer is a family like the first
+    fams = fams + [f["again"] for f in fams if f.get("again")]
     for f in fams:
         if f["exc"]:
             ck.violation(f"mub {f['n']} {f['conn']}", f"MUB API raises for supported configuration ({f['n']},{f['conn']}): {f['exc']}", {"n": f["n"], "conn": f["conn"]})
@@ -37,22 +39,22 @@ def run(tier):
     verdicts, stats = core.validate_traces("TraceCircuit", traces, files=files, what="C09 mub traces")
     ck.add_stats("TraceCircuit(mub)", stats)
     for t, (n, conn, i), (cl, _) in zip(traces, meta, verdicts):
-        ck.count((n, conn, i), any(g[2] >= 0 for g in t["gates"]))
+        ck.count((n, conn, i, t.get("pass", 1)), any(g[2] >= 0 for g in t["gates"]))
         bad = cl & CIRC_CLAUSES
         if bad:
-            ck.violation(f"mub {n} {conn} #{i}", f"MUB circuit {i} of ({n},{conn}) fails {sorted(bad)}: basis {[''.join(s) for s in t['basis']]}", {"trace": t, "clauses": sorted(bad)})
+            ck.violation(f"mub {n} {conn} #{i}", f"MUB circuit {i} of ({n},{conn}){' [second request, after the caller modified the first answer]' if t.get('pass', 1) == 2 else ''} fails {sorted(bad)}: basis {[''.join(s) for s in t['basis']]}", {"trace": t, "clauses": sorted(bad)})
         else:
             ck.accepted()
     recs = [{"op": "mubfam", "n": f["n"], "bases": f["bases"], "circuits": f["circuits"], "readouts": f["readouts"], "info": f["info"]} for f in fams if not f["exc"]]
     v2, st2 = core.validate_traces("TraceCalls", recs, files=files, what="C09 family records", jvms=min(len(recs), core.NCPU))
     ck.add_stats("TraceCalls(mubfam)", st2)
     for r, f, (cl, _) in zip(recs, [f for f in fams if not f["exc"]], v2):
-        ck.count(("fam", f["n"], f["conn"]))
+        ck.count(("fam", f["n"], f["conn"], f.get("pass", 1)))
         bad = cl & FAM_CLAUSES
         if not set(["num circuits", "max two-qubit count", "max two-qubit depth", "average two-qubit count"]) <= set(f["info_keys"]):
             bad = bad | {"info-keys"}        # the four documented keys must be present (further keys are harmless)
         if bad:
-            ck.violation(f"mubfam {f['n']} {f['conn']}", f"MUB family ({f['n']},{f['conn']}) fails {sorted(bad)}; info={f['info']}", {"record": {k: r[k] for k in ('op', 'n', 'info')}, "n": f["n"], "conn": f["conn"], "clauses": sorted(bad)})
+            ck.violation(f"mubfam {f['n']} {f['conn']}", f"MUB family ({f['n']},{f['conn']}){' [second request, after the caller modified the first answer]' if f.get('pass', 1) == 2 else ''} fails {sorted(bad)}; info={f['info']}", {"record": {k: r[k] for k in ('op', 'n', 'info')}, "n": f["n"], "conn": f["conn"], "clauses": sorted(bad)})
         else:
             ck.accepted()
     ck.sample({"trace": traces[3]})
